@@ -16,8 +16,9 @@ assert rc == 0, o
 res = {'id': name, 'property': pid, 'repo_head': sh('git -C /repo rev-parse --short HEAD')[1].strip()}
 try:
     shutil.copy(f'{out}/seed_demo.rs', f'{wt}/tests/seed_demo.rs')
-    rc, o = sh('cargo test --offline --test seed_demo 2>&1 | tail -15', cwd=wt)
-    res['demo_without_patch'] = 'pass' if 'test result: ok' in o and 'FAILED' not in o else 'FAIL'
+    FEAT = os.environ.get('SEED_FEATURES', '')
+    rc, o = sh(f'cargo test --offline {FEAT} --test seed_demo 2>&1 | tail -15', cwd=wt)
+    res['demo_without_patch'] = 'pass' if 'test result: ok' in o and 'FAILED' not in o and ' 0 passed' not in o else 'FAIL'
     res['demo_without_tail'] = o[-600:]
     rc, o = sh(f'git apply {out}/patch.diff', cwd=wt)
     res['patch_applies'] = rc == 0
@@ -26,7 +27,7 @@ try:
     res['suite_with_patch'] = 'pass' if 'FAILED' not in o and 'error' not in o and o.count('test result: ok') >= 5 else 'FAIL'
     res['suite_counts'] = [l for l in o.split('\n') if l.startswith('test result')]
     os.rename(f'{wt}/seed_demo.rs.aside', f'{wt}/tests/seed_demo.rs')
-    rc, o = sh('cargo test --offline --test seed_demo 2>&1 | tail -25', cwd=wt)
+    rc, o = sh(f'cargo test --offline {FEAT} --test seed_demo 2>&1 | tail -25', cwd=wt)
     res['demo_with_patch'] = 'fail' if ('FAILED' in o or 'panicked' in o) else 'PASS?'
     res['demo_with_tail'] = o[-900:]
     ok = res['demo_without_patch'] == 'pass' and res['patch_applies'] and res['suite_with_patch'] == 'pass' and res['demo_with_patch'] == 'fail'
